@@ -23,7 +23,7 @@ LEVEL = "exploration"
 TECHNIQUE = "bounded exhaustive circuit x configuration enumeration vs finite differences of an independent simulator; spsa by exhaustive sign-vector enumeration through a scripted RNG"
 LEVEL_TEXT = ("Every circuit word up to the length bound (quick: all 1-letter words + 2-letter words over 7 letters; thorough: all 2-letter words "
               "+ 3-letter words over 5 letters) x pre-processing patterns x measurement lists is differentiated under every autograd "
-              "diff_method; the full configuration product (4 interfaces x 12 methods x grad_on_execution x device_vjp) runs on a fixed "
+              "diff_method (12) and under param_shift / finite_diff applied to the QNode as transforms; the full configuration product (4 interfaces x 12 methods x grad_on_execution x device_vjp) runs on a fixed "
               "circuit subset; every Jacobian is compared with an independent finite-difference reference (1e-7; finite-diff 5e-6 / 1e-6; "
               "spsa: exact average over all 2^p sign vectors, 1e-6).")
 LEVEL_NOTE = ("Reference = plain-numpy state-vector simulation from closed-form gate matrices + 8th-order central differences (h=1e-2). "
